@@ -193,6 +193,8 @@ func RunC15(env *Env, job *E1Job) *E1Res {
 			case o.K == "put" || (o.K == "openw" && o.C != ""):
 				if cerr == nil {
 					viol(fmt.Sprintf("C15|write-succeeds|%s|%s", shape, construction), hist+"\nopen+write+close reported success on a read-only file system")
+				} else if o.K == "openw" && o.N&os.O_CREATE != 0 && o.N&os.O_EXCL != 0 && errors.Is(cerr, os.ErrExist) {
+					// O_CREATE|O_EXCL on an existing file fails with "exists" before any write is attempted
 				} else if strings.Contains(shape, "(file") && !errors.Is(cerr, os.ErrPermission) {
 					viol(fmt.Sprintf("C15|no-permission-error|%s|%s|got=%s", shape, construction, errKind(cerr)), hist+fmt.Sprintf("\nwriting to an existing file returned %v, not a permission error", cerr))
 				}
